@@ -49,6 +49,11 @@ func (g *genState) vpSigners(hh int64, flavour int) [][2]int {
 			out = append(out, [2]int{i, i})
 		}
 		out[0] = [2]int{m[0], 100 + m[0]}
+	case 5: // just enough signers for threshold 51
+		k := (len(m)*510 + 999) / 1000
+		for _, i := range m[:k] {
+			out = append(out, [2]int{i, i})
+		}
 	default:
 		for _, i := range m {
 			out = append(out, [2]int{i, i})
@@ -60,8 +65,11 @@ func (g *genState) vpSigners(hh int64, flavour int) [][2]int {
 // embedded voteproof: majority (or draw) at (hh, rr, stage) for the facts of variant v with expels ex.
 func (g *genState) vp(hh, rr int64, stage int, majority bool, v int, ex []int, kind int, flavour int) int {
 	th10 := g.w.th10
-	if flavour == 4 && th10 > 510 {
-		th10 = 510
+	if (flavour == 4 || flavour == 5) && th10 > 510 {
+		th10 = 510 // below the threshold of the box; flavour 5: a majority only under that lower threshold
+	}
+	if flavour == 6 {
+		th10 = 1000
 	}
 	key := fmt.Sprintf("%d/%d/%d/%v/%d/%v/%d/%d", hh, rr, stage, majority, v, ex, kind, flavour)
 	if i, ok := g.vpcache[key]; ok {
@@ -112,10 +120,12 @@ func (g *genState) ballot(node, pub int, hh, rr int64, kind, v int, ex []int, fu
 	}
 	flavour := 0
 	if g.r.Chance(1, 6) {
-		flavour = g.r.Range(1, 4)
+		flavour = g.r.Range(1, 6)
 	}
 	if g.forceFlavour > 0 {
 		flavour = g.forceFlavour
+	} else if g.forceFlavour < 0 {
+		flavour = 0
 	}
 	ex = w.facts[fi].ex
 	rex := make([]base.SuffrageExpelOperation, len(ex))
@@ -301,6 +311,19 @@ func RunForced(r *vh.Rand, res *vh.Result, mode string, maxSteps int) *Hist {
 		}
 		g.revoteScenario(r.Intn(5))
 		res.Dist("forced_revote_scenario")
+	}
+	if n >= 3 && r.Chance(1, 6) {
+		g.lowThresholdScenario([]int{5, 5, 4, 6, 0}[r.Intn(5)])
+		res.Dist("forced_lowthreshold_scenario")
+	}
+	if n >= 3 && r.Chance(1, 6) {
+		for _, x := range []int64{w.H - 2, w.H - 1, w.H} {
+			if !h.known[x] {
+				h.doLearn(x)
+			}
+		}
+		g.scBackScenario()
+		res.Dist("forced_scback_scenario")
 	}
 	g.newPhase()
 	nsteps := len(h.steps) + r.Range(maxSteps/3, maxSteps)
@@ -499,4 +522,74 @@ func (g *genState) revoteScenario(flavour int) {
 			h.doCount(id, true, nil)
 		}
 	}
+}
+
+func (g *genState) runAllPending(elapsed bool) {
+	h := g.h
+	for len(h.pend) > 0 {
+		p := h.pend[0]
+		h.pend = h.pend[1:]
+		if p.cnt {
+			h.doCount(p.rid, elapsed, &p)
+		} else {
+			h.doForward(p)
+		}
+	}
+}
+
+// lowThresholdScenario: INIT ballots of (H,0) arrive while the suffrage of their height is not known yet but the
+// suffrage of the embedded ACCEPT voteproof of H-1 is (the not-validated path: the deferred forward of the embedded
+// voteproof); the embedded voteproof carries a threshold below / equal / above the threshold of the box.  Then the
+// suffrage becomes known and the records are counted (the Count() path).
+func (g *genState) lowThresholdScenario(flavour int) {
+	h, w := g.h, g.w
+	if !h.known[w.H-2] {
+		h.doLearn(w.H - 2)
+	}
+	g.forceFlavour = flavour
+	if flavour == 0 {
+		g.forceFlavour = -1
+	}
+	for i := 0; i < 2 && i < w.n; i++ {
+		bl := g.ballot(i, i, w.H, 0, kInit, 0, nil, true)
+		if bl == nil || !bl.valid {
+			continue
+		}
+		h.doVote(bl)
+		g.runAllPending(false)
+	}
+	g.forceFlavour = 0
+	if !h.known[w.H-1] {
+		h.doLearn(w.H - 1)
+	}
+	for _, p := range h.box.VerifUnfinished() {
+		if id, ok := h.ids[p]; ok {
+			h.doCount(id, false, nil)
+		}
+	}
+}
+
+// scBackScenario: the last point is the draw of INIT (H,1); suffrage-confirm ballots of (H,0) arrive carrying the old
+// INIT majority (expel) voteproof of (H,0).  The old voteproof may be handed on, but the last point must not move
+// back to (H,0) for it.
+func (g *genState) scBackScenario() {
+	h, w := g.h, g.w
+	target := w.n - 1
+	var signers [][2]int
+	for j := 0; j < w.n; j++ {
+		signers = append(signers, [2]int{j, j})
+	}
+	e := w.Expel(target, w.H-1, w.H+1, signers)
+	h.doSetLast(lastP{h: w.H - 1, r: 0, stage: 1, maj: true})
+	h.doSetLast(lastP{h: w.H, r: 1, stage: 0, maj: false})
+	g.forceFlavour = -1
+	for i := 0; i < w.n-1; i++ {
+		bl := g.ballot(i, i, w.H, 0, kSC, 0, []int{e}, true)
+		if bl == nil || !bl.valid {
+			continue
+		}
+		h.doVote(bl)
+		g.runAllPending(false)
+	}
+	g.forceFlavour = 0
 }
